@@ -143,6 +143,12 @@ func ops(n int) []op {
 		add(fmt.Sprintf("WithByteOrder(%d){Int16@last}", ord), func(o *obj) string {
 			return with(o, func() string { return r2(o.regs.Int16(o.start + uint16(n-1))) })
 		})
+		add(fmt.Sprintf("WithByteOrder(%d){Bit9@first}", ord), func(o *obj) string {
+			return with(o, func() string { return r2(o.regs.Bit(o.start, 9)) })
+		})
+		add(fmt.Sprintf("WithByteOrder(%d){Uint8hi@last}", ord), func(o *obj) string {
+			return with(o, func() string { return r2(o.regs.Uint8(o.start+uint16(n-1), true)) })
+		})
 		add(fmt.Sprintf("WithByteOrder(%d){Uint32@first}", ord), func(o *obj) string {
 			return with(o, func() string { return r2(o.regs.Uint32(o.start)) })
 		})
